@@ -237,6 +237,26 @@ def rule_d(ck, R):
                            '; '.join(fmt(c) for c in p.cond_terms() if 'blocksize' in fmt(c) and 'alloc' in fmt(c))))
     ck.verdict(bad is None and nread >= 2, 'C09.d', 'regp_process:read-capacity', where,
                'every backend read is proved to fit between payload.data and the end of the block' if bad is None and nread >= 2 else (bad or 'backend read calls not found'))
+    # exactness: a read is refused with ETXOVERFLOW only when its answer really does not fit
+    badx = None
+    nref = 0
+    room = alloc - FS - (L(pay) - L(rawm))
+    for p in ps:
+        if backend_calls(p):
+            continue
+        tx = [e for e in p.calls('send_resp_32') if e.args[2] == C(R.E['RP_RESP_ETXOVERFLOW'])]
+        if not tx:
+            continue
+        nref += 1
+        mem16 = any(c == ('cmp', '==', ('f', ('&', ('f', P, 'memory')), 'type'), C(R.E['RP_MEMTYPE_16'])) for c in p.cond_terms())
+        ws = 2 if mem16 else 1
+        fits = L(hdr('blocksize')).scale(ws) - room
+        if eng.feasible(p.cond_terms(), bg + [fits]):
+            badx = ('a %d-bit read is refused with ETXOVERFLOW under {%s} although its answer can fit exactly (block size x %d <= room behind the header): '
+                    'the largest servable read is answered with an error and never reaches the backend'
+                    % (8 * ws, '; '.join(fmt(c) for c in p.cond_terms() if 'alloc' in fmt(c)), ws))
+    ck.verdict(badx is None and nref >= 2, 'C09.d', 'regp_process:read-exact', where,
+               'ETXOVERFLOW is chosen only when block size x word size exceeds the room behind the header' if badx is None and nref >= 2 else (badx or 'ETXOVERFLOW paths not found'))
     # ETXOVERFLOW carries trxbufsize
     ok = False
     for p in ps:
